@@ -191,4 +191,19 @@ CanonRun(name, in) ==
   IN IF r.asked # None THEN [fail |-> FALSE, asked |-> TRUE, u |-> EmptyUrl, opts |-> pr.opts]
      ELSE IF r.res = "fail" THEN [fail |-> TRUE, asked |-> FALSE, u |-> EmptyUrl, opts |-> pr.opts]
      ELSE LET c == CanonSteps(pr, r.u) IN [fail |-> FALSE, asked |-> c.asked, u |-> c.u, opts |-> pr.opts]
+(* the profile's ParseRef(base, ref): an empty base string is no base; the BASE is parsed by the underlying parser (and it is the base that
+   gets the default scheme when it fails for lack of one - never the reference, and never a base that fails in any other way, e.g. a
+   relative reference against a base with an opaque path); the reference is resolved against it and the result canonicalized *)
+CanonRunB(name, bs, in) ==
+  IF bs = <<>> \/ bs[1] = <<>> THEN CanonRun(name, in)
+  ELSE LET pr == ProfileOf(name)
+           b0 == ParseO(bs[1], None, None, pr.opts)
+           b == IF b0.res = "fail" /\ b0.failAt = "noScheme" /\ pr.defaultScheme # <<>>
+                THEN ParseO(pr.defaultScheme[1] \o <<58, 47, 47>> \o bs[1], None, None, pr.opts) ELSE b0
+       IN IF b.asked # None THEN [fail |-> FALSE, asked |-> TRUE, u |-> EmptyUrl, opts |-> pr.opts]
+          ELSE IF b.res = "fail" THEN [fail |-> TRUE, asked |-> FALSE, u |-> EmptyUrl, opts |-> pr.opts]
+          ELSE LET r == ParseO(in, Some(b.u), None, pr.opts) IN
+               IF r.asked # None THEN [fail |-> FALSE, asked |-> TRUE, u |-> EmptyUrl, opts |-> pr.opts]
+               ELSE IF r.res = "fail" THEN [fail |-> TRUE, asked |-> FALSE, u |-> EmptyUrl, opts |-> pr.opts]
+               ELSE LET c == CanonSteps(pr, r.u) IN [fail |-> FALSE, asked |-> c.asked, u |-> c.u, opts |-> pr.opts]
 ====
